@@ -25,7 +25,8 @@ Ltac norm :=
   repeat rewrite ?getc_set_pc, ?getc_set_caller in *;
   unfold getc, set_pc, add_tables, mk_req, mk_ack in *; cbn [callers rx lock last_id seqno salt table hints wire_in elog store rets closed
        set_caller set_rx set_lock set_last set_tables set_in log set_salt add_ret set_closed send
-       c_pc c_hint c_k w_id w_seq w_salt w_kind wire] in *.
+       c_pc c_hint c_k w_id w_seq w_salt w_kind wire] in *;
+  repeat rewrite ?nth_setl in *.
 
 Ltac dlookup := match goal with |- context [lookup ?a ?b] => destruct (lookup a b) eqn:? end.
 
@@ -75,4 +76,351 @@ Proof.
   - reflexivity.
   - tauto.
   - constructor.
+Qed.
+
+Ltac eqt := match goal with
+  | H : context [Nat.eqb ?a ?b] |- _ => destruct (Nat.eqb_spec a b); subst
+  | |- context [Nat.eqb ?a ?b] => destruct (Nat.eqb_spec a b); subst
+  end.
+
+(* use a lock-discipline hypothesis whose conclusion is absurd or identifies the holder *)
+Ltac cg := solve [congruence | exfalso; congruence].
+Ltac lockc L := repeat match goal with
+  | H : c_pc _ = CReg _ |- _ => pose proof (L _ _ (or_introl H)); revert H
+  | H : c_pc _ = CWritten _ |- _ => pose proof (L _ _ (or_intror H)); revert H
+  | H : c_pc _ = CReg _ \/ c_pc _ = CWritten _ |- _ => pose proof (L _ _ H); revert H
+  end; intros.
+Ltac lockr L := repeat match goal with
+  | H : rx _ = RAckReg _ _ _ |- _ => pose proof (L _ _ _ (or_introl H)); revert H
+  | H : rx _ = RAckWritten _ _ _ |- _ => pose proof (L _ _ _ (or_intror H)); revert H
+  | H : rx _ = RAckReg _ _ _ \/ rx _ = RAckWritten _ _ _ |- _ => pose proof (L _ _ _ H); revert H
+  end; intros.
+
+Lemma sorted_cons : forall (w : wframe) l,
+  StronglySorted (fun a b => w_id a > w_id b) l ->
+  (forall x, In x l -> w_id x < w_id w) ->
+  StronglySorted (fun a b => w_id a > w_id b) (w :: l).
+Proof.
+  intros. constructor; auto. apply Forall_forall. intros x Hx. apply H0 in Hx. lia.
+Qed.
+
+Definition not_ack_reg (r : rpc) : Prop :=
+  match r with RAckReg _ _ _ | RAckWritten _ _ _ => False | _ => True end.
+
+Lemma quiet_not_ack_reg : forall r, quiet_rx r -> not_ack_reg r.
+Proof. destruct r; simpl; auto. Qed.
+
+Lemma InvA_mono : forall s s',
+  (forall t i, c_pc (getc t s') = CReg i -> c_pc (getc t s) = CReg i) ->
+  (forall t i, c_pc (getc t s') = CWritten i -> c_pc (getc t s) = CWritten i) ->
+  (forall sid i ks, rx s' = RAckReg sid i ks -> rx s = RAckReg sid i ks) ->
+  (forall sid i ks, rx s' = RAckWritten sid i ks -> rx s = RAckWritten sid i ks) ->
+  lock s' = lock s -> last_id s' = last_id s -> wire s' = wire s ->
+  InvA s -> InvA s'.
+Proof.
+  intros s s' Hc1 Hc2 Hr1 Hr2 Hl Hi Hw [Lc Lr Le Rg Md Mw So].
+  constructor; unfold at_reg in *; rewrite ?Hl, ?Hi, ?Hw in *; auto.
+  - intros t i [H|H]; [apply Hc1 in H|apply Hc2 in H]; eauto.
+  - intros sid i ks [H|H]; [apply Hr1 in H|apply Hr2 in H]; eauto.
+  - intros i [[t H]|[sid [ks H]]]; apply Rg; [left; exists t; auto|right; eauto].
+Qed.
+
+Lemma InvA_calm : forall s s',
+  (forall t i, c_pc (getc t s') = CReg i -> c_pc (getc t s) = CReg i) ->
+  (forall t i, c_pc (getc t s') = CWritten i -> c_pc (getc t s) = CWritten i) ->
+  lock s' = lock s -> last_id s' = last_id s -> wire s' = wire s ->
+  not_ack_reg (rx s') -> InvA s -> InvA s'.
+Proof.
+  intros s s' Hc1 Hc2 Hl Hi Hw Hr. apply InvA_mono; auto; intros ? ? ? H; rewrite H in Hr; destruct Hr.
+Qed.
+
+Lemma InvA_transfer : forall s s',
+  callers s' = callers s -> lock s' = lock s -> last_id s' = last_id s -> wire s' = wire s ->
+  not_ack_reg (rx s') -> InvA s -> InvA s'.
+Proof.
+  intros s s' Hc. apply InvA_calm; unfold getc; rewrite Hc; auto.
+Qed.
+
+Lemma InvA_step : forall s l s', InvA s -> step s l = Some s' -> InvA s'.
+Proof.
+  intros s l s' IA H. destruct (IA) as [Lc Lr Le Rg Md Mw So].
+  destruct l as [t h|[t|] clk|f|].
+  - (* LCall *) step_cases H. constructor; unfold at_reg, wire in *; intros; norm.
+    + eqt; simpl in *; [destruct H; discriminate|eauto].
+    + eauto.
+    + eauto.
+    + apply Rg. destruct H as [[t0 H]|H]; [left; exists t0; norm; eqt; simpl in *; [discriminate|auto]|auto].
+    + auto.
+    + auto.
+    + auto.
+  - (* caller step *) step_cases H; constructor; unfold at_reg, wire in *; intros; norm.
+    + (* acquire *) eqt; simpl in *; auto. destruct H; lockc Lc; discriminate.
+    + destruct H; lockr Lr; discriminate.
+    + pose proof (Le _ H). pose proof (fresh_gt (last_id s) clk). lia.
+    + destruct H as [[t0 H]|[sid [ks H]]].
+      * norm. eqt; simpl in *; [|lockc Lc; discriminate]. inversion H; subst. split; auto.
+        intros w Hw. pose proof (Le _ Hw). pose proof (fresh_gt (last_id s) clk). lia.
+      * lockr Lr; discriminate.
+    + apply fresh_mod4; auto.
+    + auto.
+    + auto.
+    + (* write *) eqt; simpl in *.
+      * destruct H; [discriminate|]. lockc Lc. auto.
+      * eauto.
+    + eauto.
+    + destruct H as [H|H]; [subst w; simpl|auto].
+      destruct (Rg i) as [E _]; [left; eauto|]. lia.
+    + destruct H as [[t0 H]|[sid [ks H]]].
+      * norm. eqt; simpl in *; [discriminate|]. lockc Lc. congruence.
+      * lockr Lr. lockc Lc. congruence.
+    + auto.
+    + destruct H as [H|H]; [subst w; simpl|auto].
+      destruct (Rg i) as [E _]; [left; eauto|]. subst; auto.
+    + apply sorted_cons; auto. simpl. destruct (Rg i) as [_ E]; [left; eauto|]. auto.
+    + (* release *) eqt; simpl in *.
+      * destruct H; discriminate.
+      * destruct H; lockc Lc; cg.
+    + lockr Lr. lockc Lc. cg.
+    + auto.
+    + apply Rg. destruct H as [[t0 H]|H]; [left; exists t0; norm; eqt; simpl in *; [discriminate|auto]|auto].
+    + auto.
+    + auto.
+    + auto.
+  - (* receive loop *) step_cases H.
+    + (* read *) apply (InvA_transfer s); auto; exact I.
+    + (* reconnect *) apply (InvA_transfer s); auto; exact I.
+    + (* dispatch *) destruct (dispatch_frame f ks s) as (A & B & C & _ & _ & _ & _ & D).
+      apply (InvA_transfer s); auto.
+      destruct (dispatch_rx f ks s) as [Q|(? & ? & ? & ? & Q)]; [apply quiet_not_ack_reg; auto|rewrite Q; exact I].
+    + (* deliver, value returned *)
+      apply (InvA_calm s); auto; intros; norm; try (eqt; simpl in *; [discriminate|auto]).
+      apply quiet_not_ack_reg, settle_quiet.
+    + (* deliver, marker: reserved *)
+      apply (InvA_calm s); auto; intros; norm; try (eqt; simpl in *; [discriminate|auto]).
+      apply quiet_not_ack_reg, settle_quiet.
+    + (* rx acquire *) constructor; unfold at_reg, wire in *; intros; norm.
+      * lockc Lc; discriminate.
+      * reflexivity.
+      * pose proof (Le _ H). pose proof (fresh_gt (last_id s) clk). lia.
+      * destruct H as [[t0 H]|[sid0 [ks0 H]]]; [lockc Lc; discriminate|].
+        inversion H; subst. split; auto.
+        intros w Hw. pose proof (Le _ Hw). pose proof (fresh_gt (last_id s) clk). lia.
+      * apply fresh_mod4; auto.
+      * auto.
+      * auto.
+    + (* rx write *) assert (LK : lock s = Some ARx) by (eapply (a_lock_r _ IA); left; eauto).
+      assert (RG : i = last_id s /\ forall w, In w (wire s) -> w_id w < i)
+        by (apply Rg; right; eauto).
+      destruct RG as [E RG]. constructor; unfold at_reg, wire in *; intros; norm.
+      * lockc Lc. auto.
+      * auto.
+      * destruct H as [H|H]; [subst w; simpl; lia|auto].
+      * destruct H as [[t0 H]|[sid0 [ks0 H]]]; [lockc Lc; cg|discriminate].
+      * auto.
+      * destruct H as [H|H]; [subst w; simpl; subst; auto|auto].
+      * apply sorted_cons; auto.
+    + (* rx release *) assert (LK : lock s = Some ARx) by (eapply (a_lock_r _ IA); right; eauto).
+      constructor; unfold at_reg, wire in *; intros; norm.
+      * lockc Lc. cg.
+      * destruct H; discriminate.
+      * auto.
+      * destruct H as [[t0 H]|[sid0 [ks0 H]]]; [lockc Lc; cg|discriminate].
+      * auto.
+      * auto.
+      * auto.
+    + (* ack received *) apply (InvA_transfer s); auto. apply quiet_not_ack_reg, settle_quiet.
+  - (* LSrv *) step_cases H. apply (InvA_mono s); auto.
+  - (* LClose *) step_cases H. apply (InvA_mono s); auto.
+Qed.
+
+(* ---- B: seq_no ------------------------------------------------------------------------------ *)
+
+(* what one step does to the outgoing stream *)
+Lemma step_wire : forall s l s', step s l = Some s' ->
+  (wire s' = wire s /\ seqno s' = seqno s) \/
+  (exists w, wire s' = w :: wire s /\ seqno s' = wrap32 (seqno s + 2) /\
+             w_seq w = if is_content w then Z.lor (seqno s) 1 else seqno s).
+Proof.
+  intros s l s' H. destruct l as [t h|[t|] clk|f|]; step_cases H; unfold wire; norm; auto.
+  - right. eexists. split; [reflexivity|]. split; reflexivity.
+  - destruct (dispatch_frame f ks s) as (_ & _ & _ & A & _ & _ & _ & B). auto.
+  - right. eexists. split; [reflexivity|]. split; reflexivity.
+Qed.
+
+Fixpoint wseq_ok (l : list wframe) : Prop :=       (* newest first *)
+  match l with
+  | [] => True
+  | w :: r => w_seq w = wrap32 (2 * Z.of_nat (length r)) + (if is_content w then 1 else 0) /\ wseq_ok r
+  end.
+
+Definition InvB (s : state) : Prop :=
+  seqno s = wrap32 (2 * Z.of_nat (length (wire s))) /\ wseq_ok (wire s).
+
+Lemma InvB_init : InvB init.
+Proof. split; reflexivity. Qed.
+
+Lemma InvB_step : forall s l s', InvB s -> step s l = Some s' -> InvB s'.
+Proof.
+  intros s l s' [Hs Hw] H. apply step_wire in H.
+  destruct H as [[E1 E2]|[w [E1 [E2 E3]]]]; unfold InvB; rewrite E1, E2; [auto|].
+  assert (Ev : seqno s mod 2 = 0) by (rewrite Hs; apply wrap32_even; lia).
+  split.
+  - rewrite Hs, wrap32_add. f_equal. simpl length. lia.
+  - cbn [wseq_ok]. split; auto. rewrite E3. destruct (is_content w); [rewrite lor_1_even by auto|]; rewrite Hs; ring.
+Qed.
+
+(* ---- D: acknowledgements ------------------------------------------------------------------- *)
+
+Fixpoint tails (ks : list kont) : list Z :=
+  match ks with
+  | [] => []
+  | KItem _ :: r => tails r
+  | KTail sid seq :: r => if Z.odd seq then sid :: tails r else tails r
+  end.
+
+(* acknowledgements the receive loop still owes while it works through one frame;
+   None for the terminal (dead / reserved) program counters *)
+Definition owed (r : rpc) : option (list Z) :=
+  match r with
+  | RRead => Some []
+  | RDispatch _ ks | RDeliver _ _ _ ks => Some (tails ks)
+  | RAckLock sid ks | RAckReg sid _ ks => Some (sid :: tails ks)
+  | RAckWritten _ _ ks | RAckRecv _ ks => Some (tails ks)
+  | RNotify _ _ | RReconnect | RDead => None
+  end.
+
+Definition InvD (s : state) : Prop :=
+  match owed (rx s) with Some o => incl (unacked (elog s)) o | None => True end.
+
+Lemma owed_settle : forall ks, owed (settle ks) = Some (tails ks).
+Proof.
+  induction ks as [|k ks IH]; simpl; auto. destruct k; simpl; auto. destruct (Z.odd seq); simpl; auto.
+Qed.
+
+Lemma tails_items : forall items ks, tails (map KItem items ++ ks) = tails ks.
+Proof. induction items; simpl; auto. Qed.
+
+Lemma unacked_not_acked : forall l acks x, In x (unacked_aux acks l) -> ~ In x acks.
+Proof.
+  induction l as [|e l IH]; simpl; intros acks x H; [tauto|].
+  destruct e.
+  - destruct (Z.odd seq && negb (memz sid acks)) eqn:E; [|eauto].
+    destruct H as [H|H]; [|eauto]. subst. apply andb_true_iff in E. destruct E as [_ E].
+    intro X. apply memz_In in X. rewrite X in E. discriminate.
+  - eauto.
+  - destruct (w_kind w); [eauto|]. apply IH in H. intro X. apply H. right. auto.
+Qed.
+
+Lemma unacked_mono : forall l acks acks' x,
+  incl acks acks' -> In x (unacked_aux acks' l) -> In x (unacked_aux acks l).
+Proof.
+  induction l as [|e l IH]; simpl; intros acks acks' x I H; [tauto|].
+  destruct e.
+  - destruct (Z.odd seq) eqn:O; simpl in *; [|eauto].
+    destruct (memz sid acks') eqn:M'; simpl in *.
+    + destruct (memz sid acks); simpl; [eauto|right; eauto].
+    + destruct (memz sid acks) eqn:M; simpl.
+      * apply memz_In in M. apply I in M. apply memz_In in M. congruence.
+      * destruct H; [auto|right; eauto].
+  - eauto.
+  - destruct (w_kind w); [eauto|]. eapply IH; [|exact H]. intros y [Y|Y]; [left; auto|right; auto].
+Qed.
+
+Lemma InvD_init : InvD init.
+Proof. unfold InvD. simpl. intros x H. exact H. Qed.
+
+Lemma dispatch_owed : forall f ks s,
+  incl (unacked (elog s)) (tails ks) ->
+  match owed (rx (dispatch f ks s)) with
+  | Some o => incl (unacked (elog (dispatch f ks s))) o | None => True end.
+Proof.
+  intros [[sid seq] b] ks s I. unfold dispatch.
+  assert (U : incl (unacked (ERecv sid seq :: elog s)) (tails (KTail sid seq :: ks))).
+  { unfold unacked. simpl. destruct (Z.odd seq); simpl; auto.
+    intros x [H|H]; [left; auto|right; auto]. }
+  destruct (negb (decodes (hinted_for b s) b)); [simpl; auto|].
+  destruct (strip b); try dlookup; cbn [rx set_rx owed elog log set_salt]; rewrite ?owed_settle, ?tails_items; auto.
+Qed.
+
+Lemma InvD_step : forall s l s', InvD s -> step s l = Some s' -> InvD s'.
+Proof.
+  intros s l s' I H. unfold InvD in *.
+  destruct l as [t h|[t|] clk|f|]; step_cases H; norm; auto.
+  - (* reconnect *) simpl. auto.
+  - (* dispatch *) simpl in I. apply dispatch_owed; auto.
+  - (* deliver *) simpl in I. rewrite owed_settle. auto.
+  - simpl in I. rewrite owed_settle. auto.
+  - (* rx write *) simpl in *. unfold unacked in *. simpl.
+    intros x Hx. pose proof (unacked_not_acked _ _ _ Hx) as N.
+    apply (unacked_mono _ [] [sid]) in Hx; [|intros y []]. apply I in Hx.
+    destruct Hx as [Hx|Hx]; [subst; exfalso; apply N; left; auto|auto].
+  - (* ack received *) simpl in I. rewrite owed_settle. auto.
+Qed.
+
+(* ---- results over all histories ---------------------------------------------------------------- *)
+
+Record Inv10 (s : state) : Prop := { i_a : InvA s; i_b : InvB s; i_d : InvD s }.
+
+Lemma Inv10_run : forall ls s, run init ls = Some s -> Inv10 s.
+Proof.
+  apply run_invariant.
+  - constructor; [apply InvA_init|apply InvB_init|apply InvD_init].
+  - intros s l s' J H. destruct J as [A B D]. constructor; [eapply InvA_step|eapply InvB_step|eapply InvD_step]; eauto.
+Qed.
+
+Lemma odd_plus_bit : forall a (c : bool), a mod 2 = 0 -> Z.odd (a + (if c then 1 else 0)) = c.
+Proof.
+  intros a c H. destruct (Z.odd (a + (if c then 1 else 0))) eqn:O.
+  - apply Z.odd_spec in O. destruct O as [m O]. destruct c; auto. lia.
+  - rewrite <- Z.negb_even in O. apply negb_false_iff, Z.even_spec in O. destruct O as [m O].
+    destruct c; auto. lia.
+Qed.
+
+Lemma wseq_parity : forall l, wseq_ok l -> forall w, In w l -> Z.odd (w_seq w) = is_content w.
+Proof.
+  induction l as [|x l IH]; cbn [wseq_ok In]; [intros _ w []|]; intros [H1 H2] w Hw.
+  destruct Hw as [Hw|Hw]; [subst x|auto].
+  rewrite H1. apply odd_plus_bit. apply wrap32_even. lia.
+Qed.
+
+Lemma wseq_bound : forall l, wseq_ok l -> Z.of_nat (length l) < 1073741824 -> forall y, In y l ->
+  w_seq y <= 2 * Z.of_nat (length l) - 1.
+Proof.
+  induction l as [|x l IH]; cbn [wseq_ok In]; [intros _ _ y []|]; intros [H1 H2] B y Hy.
+  cbn [length] in *. rewrite Nat2Z.inj_succ in *. destruct Hy as [Hy|Hy].
+  - subst x. rewrite H1, wrap32_small by lia. destruct (is_content y); lia.
+  - specialize (IH H2 ltac:(lia) y Hy). lia.
+Qed.
+
+Lemma wseq_monotone : forall l, wseq_ok l -> Z.of_nat (length l) < 1073741824 ->
+  StronglySorted (fun a b => w_seq a >= w_seq b) l.
+Proof.
+  induction l as [|x l IH]; cbn [wseq_ok]; [constructor|]; intros [H1 H2] B.
+  cbn [length] in B. rewrite Nat2Z.inj_succ in B.
+  constructor; [apply IH; auto; lia|].
+  apply Forall_forall. intros y Hy.
+  pose proof (wseq_bound l H2 ltac:(lia) y Hy) as G.
+  rewrite H1, wrap32_small by lia. destruct (is_content x); lia.
+Qed.
+
+(* the checker [unacked] is sound for the statement "every received message with odd seq_no is
+   followed by a msgs_ack naming it" *)
+Lemma unacked_sound : forall l acks, unacked_aux acks l = [] ->
+  forall post pre sid seq, l = post ++ ERecv sid seq :: pre -> Z.odd seq = true ->
+  In sid acks \/ exists w, In (ESent w) post /\ w_kind w = WAck sid.
+Proof.
+  induction l as [|e l IH]; intros acks U post pre sid seq E O.
+  - destruct post; discriminate.
+  - destruct post as [|e' post]; simpl in E; inversion E; subst.
+    + simpl in U. rewrite O in U. simpl in U. destruct (memz sid acks) eqn:M; simpl in U; [|discriminate].
+      left. apply memz_In. auto.
+    + simpl in U. destruct e'.
+      * destruct (Z.odd seq0 && negb (memz sid0 acks)); [discriminate|].
+        destruct (IH _ U _ _ _ _ eq_refl O) as [H|[w [H1 H2]]]; [auto|right; exists w; simpl; auto].
+      * destruct (IH _ U _ _ _ _ eq_refl O) as [H|[w [H1 H2]]]; [auto|right; exists w; simpl; auto].
+      * destruct (w_kind w) eqn:K.
+        -- destruct (IH _ U _ _ _ _ eq_refl O) as [H|[w' [H1 H2]]]; [auto|right; exists w'; simpl; auto].
+        -- destruct (IH _ U _ _ _ _ eq_refl O) as [H|[w' [H1 H2]]].
+           ++ destruct H as [H|H]; [subst; right; exists w; simpl; auto|auto].
+           ++ right; exists w'; simpl; auto.
 Qed.
